@@ -306,14 +306,26 @@ func coordinate(p *Prop, tier string) int {
 				okCount++
 			}
 		}
+		tries := 5
 		if okCount == 0 {
-			fmt.Fprintf(os.Stderr, "engine error: violation %q did not reproduce at all (0/5 re-executions failing)\n", v.Key)
+			// not once in five: before calling it an engine error, try harder (a subject whose behaviour
+			// depends on an uncontrolled map order may fail only now and then)
+			for i := 0; i < 20; i++ {
+				tries++
+				if o := safeCheck(p, v.Case); !o.OK {
+					okCount++
+					diverged = true
+				}
+			}
+		}
+		if okCount == 0 {
+			fmt.Fprintf(os.Stderr, "engine error: violation %q did not reproduce at all (0/%d re-executions failing)\n", v.Key, tries)
 			return 2
 		}
-		if diverged || okCount != 5 || first.Key != v.Key {
+		if diverged || okCount != tries || first.Key != v.Key {
 			// The subject itself is nondeterministic (uncontrolled map iteration order inside the library):
 			// the failure was observed and observed again, so it is reported, marked as such.
-			v.Desc = fmt.Sprintf("[nondeterministic: failed in the exploration and in %d of 5 re-executions]\n%s", okCount, v.Desc)
+			v.Desc = fmt.Sprintf("[nondeterministic: failed in the exploration and in %d of %d re-executions]\n%s", okCount, tries, v.Desc)
 			confirmed = append(confirmed, v)
 			continue
 		}
